@@ -25,8 +25,10 @@ func init() {
 			ruleNoTruncatedZeroTest(r, "K10", "/wire", "/iscp")
 			ruleDefaultsFillOnlyUnset(r, "K11", "/iscp", "/wire")
 			ruleOptionSetters(r, "K12", "conn_options.go")
+			ruleDurationUnits(r, "K13", "/iscp", "/wire")
 			r.borrow("C06", func() { ruleC06R8(r) }) // a broker ping is never dropped by the demultiplexer
 			r.borrow("C07", func() { ruleC07R2(r) }) // per-alias delivery never blocks the reader that also routes pongs
+			r.borrow("C06", func() { ruleC06R5(r) }) // a request pending when keepalive gives the connection up is released (it may hold the mutex the redial needs)
 			ruleLoopDrivers(r, "K8", "the keep-alive stays periodic: in package wire every receive inside a loop from a time source is a Ticker, a time.After, or a Timer that is re-armed inside the loop when its branch continues the loop", func(fn *ssa.Function) bool { return fnPkgPath(fn) == modPath+"/wire" }, 1)
 			r.Begin("K6", "pongs are routed without blocking: the reply table the pong is delivered through holds only channels of capacity >= 1 (a reply abandoned by its caller must not stall the router, or live pongs pile up and a live broker is dropped)", 1)
 			chanCapRule(r, "/wire.ClientConn.replyCh", 1)
